@@ -275,6 +275,13 @@ def shutdown_history(rng):
     default = rng.choice(["200", "200", "503", "500", "410", "401", "404", "neterr", "429"])
     extra = []
     import re as _re
+    live = sorted(set(_re.findall(r"run=(r\d\w*)", " ".join(o for o in ops if " connect " in o))))
+    if live and rng.random() < 0.4:
+        # the termination request arrives while the processor loop is busy aggregating a transaction
+        g2 = Gen(rng, napps=1)
+        g2.nid = 500000 + rng.randrange(1000) * 100
+        g2.txn(rng.choice(live + ["rX"][:rng.choice([0, 0, 1])]))
+        ops.append(g2.ops[-1].replace("proc txn", "proc slowtxn", 1))
     for run in sorted(set(_re.findall(r"run=(r\d\w*)", " ".join(ops)))):
         for cmd in DEFAULT_CMDS + list(EVENT_CMDS.values()):
             if rng.random() < 0.15:
@@ -466,6 +473,49 @@ def capacity_history(rng):
             g.ops.append(" ".join(parts))
         for run in runs:
             g.trigger(run, mask=rng.choice([ALL, ALL, 527, 527, 16 | 32 | 64 | 128 | 256, 256, 32]))
+            g.drain(run, "200")
+    g.ops.append("proc state")
+    g.ops.append("proc cleanexit default=200")
+    return g.ops
+
+
+def zero_limit_history(rng):
+    """C12: a category whose negotiated limit is zero is never sent.  The zero comes from the collector's reply, from the
+    agent's own limit (span, log, custom) or from both; events of every category arrive in the FIRST period after the
+    connect and in later ones; the first harvest is a combined one, a per-category one, or the final flush at exit"""
+    g = Gen(rng, napps=rng.choice([1, 1, 2]), profile="allok", timeout=0)
+    runs = []
+    for i in range(1, g.napps + 1):
+        h = "k%d" % i
+        g.ops.append("proc defapp %s lic=LIC%d name=app%d redirect=- lang=php ver=1.%d host=h%d dt=0 span=%d log=%d custom=%d" % (
+            h, i, i, i, i, rng.choice([0, 0, 3, 10000]), rng.choice([0, 0, 2, 10000]), rng.choice([0, 0, 4, 30000])))
+        g.apps.append(h)
+        g.nrun += 1
+        run = "r%d%s" % (g.nrun, "qwzjkvbxyp"[g.nrun % 10] * 3)
+
+        def lim(mx):
+            return rng.choice(["-", "0", "0", "3", str(mx)])
+        allDefault = rng.random() < 0.5
+        rp = rng.choice(["-", "60000"]) if allDefault else rng.choice(["5000", "30000", "60000"])
+        srp = rng.choice(["-", "60000"]) if allDefault else rng.choice(["-", "60000", "45000"])
+        g.ops.append("proc app %s run=-" % h)
+        g.ops.append("proc reply %s preconnect 0 200 host=coll-%s.example" % (h, h))
+        g.ops.append("proc reply %s connect 0 200 run=%s rp=%s ee=%s ae=%s ce=%s se=%s le=%s srp=%s sl=%s rules=- hdr=-" % (
+            h, run, rp, lim(100), lim(10000), lim(100000), lim(10000), lim(20000), srp, lim(10000)))
+        g.run_of[h] = run
+        runs.append(run)
+    for period in range(rng.randint(1, 3)):
+        for _ in range(rng.randint(1, 4)):
+            run = rng.choice(runs)
+            n = rng.randint(1, 4)
+            parts = ["proc txn %s name=t1 pid=1 prio=%d" % (run, rng.randrange(1000000)), "ev=%d" % g.fresh()[0]]
+            for key in ("ce", "se", "le", "ee"):
+                parts.append("%s=%s" % (key, ",".join(map(str, g.fresh(n)))))
+            g.ops.append(" ".join(parts))
+        if period == 0 and rng.random() < 0.3:
+            break           # straight to the final flush
+        for run in runs:
+            g.trigger(run, mask=rng.choice([ALL, ALL, DEFAULT, 16 | 32 | 64 | 128 | 256, 256, 128, 32, 64, 16]))
             g.drain(run, "200")
     g.ops.append("proc state")
     g.ops.append("proc cleanexit default=200")
